@@ -3,14 +3,14 @@
 use crate::for_sets;
 use crate::guard::guarded;
 use crate::props::StageOut;
-use crate::rngs::{FaultKind, FaultRng, RecordingRng, INFALLIBLE_MARKER};
+use crate::rngs::{FaultKind, FaultRng, RecordingRng, FAULT_CODES, INFALLIBLE_MARKER};
 use crate::sets::PS;
 use crate::util::{digest64, hex, par_map, Acc, Prng};
 use crate::Ctx;
 use refimpl::{Mode, MODES};
 use serde_json::json;
 
-const RULE: &str = "fault enumeration: entry points {try_keygen_with_rng (module fn), KG::try_keygen_with_rng, try_sign_with_rng, try_hash_sign_with_rng x3 PH, dudect_keygen_sign_with_rng (two requests)} x 3 sets x failing request index {0,1,2} x fault kind {error before write, error after 1/16/31 real bytes with a poisoned tail, error after a full write}: when the fault fires the call must return Err without unwinding; when it does not fire the call must return Ok and a strict RNG (whose infallible methods panic) must have logged only try_fill_bytes(32). Influence: for each of the 256 bit positions of each draw, flipping it must change the public-key bytes, the private-key bytes and the signature (each mode). OS RNG: repeated try_keygen/try_sign/try_hash_sign calls on identical inputs give pairwise distinct outputs that verify. Non-trivial = distinct (entry point, set, fault index, fault kind) cells in which the fault actually fired, plus distinct influence probes.";
+const RULE: &str = "fault enumeration: entry points {try_keygen_with_rng (module fn), KG::try_keygen_with_rng, try_sign_with_rng, try_hash_sign_with_rng x3 PH, dudect_keygen_sign_with_rng (two requests)} x 3 sets x failing request index {0,1,2} x fault kind {error before write, error after 1/16/31 real bytes with a poisoned tail, error after a full write} x reported error code {rand_core custom, internal, OS errnos 1, 4 (EINTR), 5, 11 (EAGAIN), 35, 38, 2^31-1, 2^32-1}: when the fault fires the call must return Err without unwinding; when it does not fire the call must return Ok and a strict RNG (whose infallible methods panic) must have logged only try_fill_bytes(32). Influence: for each of the 256 bit positions of each draw, flipping it must change the public-key bytes, the private-key bytes and the signature (each mode). OS RNG: repeated try_keygen/try_sign/try_hash_sign calls on identical inputs give pairwise distinct outputs that verify. Non-trivial = distinct (entry point, set, fault index, fault kind) cells in which the fault actually fired, plus distinct influence probes.";
 
 pub fn run(ctx: &Ctx) -> StageOut {
     let mut acc = Acc::new();
@@ -65,15 +65,16 @@ fn run_set<S: PS>(ctx: &Ctx) -> Acc {
     for &e in &entries {
         for fail_at in 0..3usize {
             for kind in kinds {
+              for code in FAULT_CODES {
                 acc.eval();
                 let script = g.bytes(96);
-                let replay = json!({"kind":"c12-fault","set":S::SET,"entry":e.name(),"fail_at":fail_at,"fault":format!("{kind:?}"),"script":hex(&script)});
+                let replay = json!({"kind":"c12-fault","set":S::SET,"entry":e.name(),"fail_at":fail_at,"fault":format!("{kind:?}"),"code":code,"script":hex(&script)});
                 let r = guarded(|| {
-                    let mut rng = FaultRng::new(&script, fail_at, kind);
+                    let mut rng = FaultRng::new(&script, fail_at, kind).with_code(code);
                     let out = call::<S, _>(e, &sk, &mut rng, &m, &cx);
                     (out.is_ok(), rng.fired, rng.requests)
                 });
-                let cell = format!("{}|{}|fail_at={fail_at}|{kind:?}", p.name, e.name());
+                let cell = if code == FAULT_CODES[0] { format!("{}|{}|fail_at={fail_at}|{kind:?}", p.name, e.name()) } else { format!("{}|{}|fail_at={fail_at}|{kind:?}|code={code}", p.name, e.name()) };
                 match r {
                     Err(pi) if e == Entry::Dudect && !pi.message.contains(INFALLIBLE_MARKER) && pi.location.contains("/src/") && cfg!(debug_assertions) && pi.message.starts_with("Alg ") => {
                         // a range self-check of the constant-time test path firing on unrejected data: not an RNG
@@ -86,7 +87,7 @@ fn run_set<S: PS>(ctx: &Ctx) -> Acc {
                     }
                     Ok((is_ok, fired, requests)) => {
                         if fired && is_ok {
-                            acc.violation(&format!("C12|fault-ignored|{cell}"), format!("request {fail_at} failed ({kind:?}) but {} returned Ok", e.name()), replay);
+                            acc.violation(&format!("C12|fault-ignored|{cell}"), format!("request {fail_at} failed ({kind:?}, error code {code}) but {} returned Ok", e.name()), replay);
                         } else if !fired && !is_ok {
                             acc.violation(&format!("C12|spurious-error|{cell}"), format!("no fault fired (requests made: {requests}) but {} returned Err", e.name()), replay);
                         } else if fired {
@@ -100,6 +101,7 @@ fn run_set<S: PS>(ctx: &Ctx) -> Acc {
                         }
                     }
                 }
+              }
             }
         }
         // strict, non-faulting: only try_fill_bytes(32), exactly `requests` of them
